@@ -56,7 +56,7 @@ fn main() {
                 std::process::exit(2);
             };
             let jobs = jobs.unwrap_or(match tier {
-                Tier::Quick => 4,
+                Tier::Quick => 8,
                 Tier::Thorough => 16,
             });
             // seed is reported in the evidence as a signed-safe integer
